@@ -6,11 +6,13 @@
 //   P  text product   : type x subtype (17 known + vendor + extension, incl. extension subtypes that start
 //                       with a known subtype name) x suffix (none, 7 known, extension, extension starting
 //                       with a known suffix name) x letter case x {q, parameter} sets  [quick: 2 q x 2
-//                       parameter sets; thorough: all 101 canonical q x all parameter sets]
+//                       parameter sets; thorough: all 101 canonical q x 6
+//                       parameter sets]
 //   Q  quality forms  : q = 0.00 .. 1.00 in hundredths x 3 spellings (0.5 / 0.50 / 0.500) x 3 carrier types
 //                       x all parameter sets (0-2 parameters, two separators, incl. a parameter whose name
 //                       starts with the letter q)
-//   B  built objects  : MediaType(top, sub[, suffix]) + setQuality + setParam -> toString() -> parse
+//   B  built objects  : MediaType(top, sub[, suffix]) + setQuality + setParam -> toString() -> parse (all known
+//                       type/subtype/suffix x the q set of P x all parameter sets; all 102 q on 3 carriers)
 //   M  mutated text   : every string over {t / * + ; = q . 0 9 SP NUL} up to length L, bare and behind
 //                       valid prefixes; oracle is a strict three-valued reference recogniser (VALID /
 //                       INVALID / UNSPECIFIED)
@@ -268,13 +270,13 @@ static std::string djson(const std::string& text, const Seen& got, const std::st
 }
 
 // One text, all delivery forms. mustAccept: 1 yes, 0 must reject, -1 unspecified.
-static void evaluate(const std::string& text, const Want& w, int mustAccept, const char* sec, vr::Ctx& ctx)
+static void evaluate(const std::string& text, const Want& w, int mustAccept, const char* sec, vr::Ctx& ctx, bool allFollow = true)
 {
     ctx.note(std::string(sec) + " input=" + vr::show(text));
     Seen a = via_string(text);
     Seen b = via_exact(text);
     ctx.count("evaluations", 1);
-    ctx.count("transitions", 2 + kNFollow);
+    ctx.count("transitions", 2 + (allFollow ? kNFollow : 3));
     ctx.state(vr::hash_str(a.canon(), 3));
 
     // rejection must be the unsupported-media-type error
@@ -284,6 +286,8 @@ static void evaluate(const std::string& text, const Want& w, int mustAccept, con
         ctx.violation("c18:fromRaw-differs-from-fromString", djson(text, b, ",\"fromString\":" + vr::jstr(a.canon())));
     for (int f = 0; f < kNFollow; ++f)
     {
+        if (!allFollow && (f == 1 || f == 3)) // mutated text: one representative per class (digit, '.', letter)
+            continue;
         Seen c = via_followed(text, kFollow[f]);
         if (c.canon() != b.canon())
             ctx.violation(std::string("c18:result-depends-on-bytes-after-length:") + kFollowName[f], djson(text, c, ",\"exact_buffer\":" + vr::jstr(b.canon()) + ",\"following\":" + vr::jstr(kFollow[f])));
@@ -480,18 +484,35 @@ static void caseQ(uint64_t i, vr::Ctx& ctx)
 }
 
 // built objects: only what the constructors can express (known subtypes / suffixes)
+static uint64_t nB1;
 static void caseB(uint64_t i, vr::Ctx& ctx)
 {
-    uint64_t x = i;
-    int pi = int(x % kNSpaced); // the separator is the writer's business here: spaced sets only
-    x /= kNSpaced;
-    int qi = gPQ[x % gPQ.size()];
-    x /= gPQ.size();
-    int fi = int(x % kNKnownSufs);
-    x /= kNKnownSufs;
-    int si = int(x % kNKnownSubs);
-    x /= kNKnownSubs;
-    int ti = int(x);
+    int pi, qi, fi, si, ti;
+    if (i < nB1)
+    {
+        uint64_t x = i;
+        pi = int(x % kNSpaced); // the separator is the writer's business here: spaced sets only
+        x /= kNSpaced;
+        qi = gPQ[x % gPQ.size()];
+        x /= gPQ.size();
+        fi = int(x % kNKnownSufs);
+        x /= kNKnownSufs;
+        si = int(x % kNKnownSubs);
+        x /= kNKnownSubs;
+        ti = int(x);
+    }
+    else
+    {
+        // every quality value (the writer's formatting of q) on three carriers
+        uint64_t x = i - nB1;
+        pi = int(x % kNSpaced);
+        x /= kNSpaced;
+        int c = int(x % 3);
+        x /= 3;
+        qi = int(x); // index into gQCanon
+        static const int carriers[3][3] = { { 1, 2, 0 }, { 5, 8, 7 }, { 0, 0, 0 } }; // text/html, application/json+xml, */*
+        ti = carriers[c][0], si = carriers[c][1], fi = carriers[c][2];
+    }
     const PSet& ps = gPSets[pi];
     Want w;
     w.top    = (int)kTypes[ti].t;
@@ -661,7 +682,7 @@ static void mutated(const std::string& text, vr::Ctx& ctx)
 {
     Want w;
     int r = reference(text, w);
-    evaluate(text, w, r, r == 1 ? "mutated(ref valid)" : r == 0 ? "mutated(ref invalid)" : "mutated(ref unspecified)", ctx);
+    evaluate(text, w, r, r == 1 ? "mutated(ref valid)" : r == 0 ? "mutated(ref invalid)" : "mutated(ref unspecified)", ctx, false);
     ctx.nontrivial(vr::hash_str(text, 11));
 }
 
@@ -692,6 +713,8 @@ int main(int argc, char** argv)
     vr::Options opt = vr::parse_args(argc, argv);
     gThorough       = opt.geti("thorough", 0) != 0;
     gStrict         = opt.geti("strict", 0) != 0;
+    if (gThorough && opt.tab_log2 == 22)
+        opt.tab_log2 = 27; // ~64M distinct inputs
     L               = (int)opt.geti("L", gThorough ? 7 : 5);
     Lp              = (int)opt.geti("Lp", gThorough ? 5 : 3);
     init_psets();
@@ -700,8 +723,7 @@ int main(int argc, char** argv)
     {
         for (size_t k = 0; k < gQCanon.size(); ++k)
             gPQ.push_back((int)k);
-        for (size_t k = 0; k < gPSets.size(); ++k)
-            gPP.push_back((int)k);
+        gPP = { 0, 1 /* charset */, 4 /* qs */, 5 /* charset; boundary */, 17 /* ;charset */, 21 /* ;charset;boundary */ };
     }
     else
     {
@@ -710,7 +732,8 @@ int main(int argc, char** argv)
     }
     nP     = (uint64_t)kNTypes * kNSubs * kNSufs * 3 * gPQ.size() * gPP.size();
     nQ     = (uint64_t)2 * gQAll.size() * 3 * gPSets.size();
-    nB     = (uint64_t)kNTypes * kNKnownSubs * kNKnownSufs * gPQ.size() * kNSpaced;
+    nB1    = (uint64_t)kNTypes * kNKnownSubs * kNKnownSufs * gPQ.size() * kNSpaced;
+    nB     = nB1 + (uint64_t)gQCanon.size() * 3 * kNSpaced;
     nMfull = gb::count_upto(kNM, L);
     nMpre  = gb::count_upto(kNM, Lp);
     bP     = (nP + kBlock - 1) / kBlock;
